@@ -90,7 +90,9 @@ class ConnectNode(fm.TimeComponent):
                     pi[o["name"]] = src.copy_with(units="")
             if not c.data_pushed[o["name"]]:
                 if all(c.in_data[d] is not None for d in o.get("data_deps", [])):
-                    val = 1.0 + self.spec["idx"] * 100 + sum(float(np.asarray(c.in_data[d].magnitude).ravel()[0]) for d in o.get("data_deps", []))
+                    # "refine": the component hands over a refined version of its initial data on every call until it is published;
+                    # the version of the publishing call is the one that counts
+                    val = 1.0 + self.spec["idx"] * 100 + (0.001 * len(self.calls) if o.get("refine") else 0.0) + sum(float(np.asarray(c.in_data[d].magnitude).ravel()[0]) for d in o.get("data_deps", []))
                     pd[o["name"]] = val
                     self.pushed[o["name"]] = val
         self.try_connect(start_time, exchange_infos=ex, push_infos=pi, push_data=pd)
@@ -112,7 +114,7 @@ def gen_connect_spec(rnd):
     links = []
     for a in range(n):
         for k in range(rnd.choice([0, 1, 1, 2])):
-            nodes[a]["outs"].append(dict(name=f"o{k}", info="init", data_deps=[]))
+            nodes[a]["outs"].append(dict(name=f"o{k}", info="init", data_deps=[], refine=rnd.random() < 0.35))
     for a in range(n):
         for o in nodes[a]["outs"]:
             for _ in range(rnd.choice([1, 1, 2])):
@@ -219,7 +221,7 @@ class C06(Property):
             return dict(kind="masked_offset", own_start=rnd.choice([1, 2, 5]), mseed=rnd.randrange(1 << 30), order=rnd.sample(range(2), 2),
                         via=rnd.choice([None, None, "scale", "next"]), consumer_start=rnd.choice([0, 0, 1]))
         if i % 3 == 2:
-            spec = gen_coupling.gen_dag(rnd, cycle=None, pull_prob=0.2)
+            spec = gen_coupling.gen_dag(rnd, cycle=None, pull_prob=0.2, shipped=0.3)
             spec["kind"] = "offsets"
             # offsets matter here: force at least one late starter
             tc = [c for c in spec["comps"] if c["type"] == "time"]
@@ -458,12 +460,13 @@ class C06(Property):
                 if len(times) != len(set(times)) or len(times) > 2:
                     out.viol("repeated_initial_publication", f"{c['name']}.{oname}: initial publications at {[hrs(t) for t in times]}", spec=spec)
         # initial pulls deliver the producer's initial id (for chains that do not transform values)
+        byname = {c["name"]: (k, c) for k, c in enumerate(spec["comps"])}
         for ln in spec["links"]:
-            dst = b.comps[ln["dst"][0]]
-            if not isinstance(dst, fm.interfaces.ITimeComponent) or not dst.spec.get("initial_pull", True):
+            dst, (_di, dc) = b.comps[ln["dst"][0]], byname[ln["dst"][0]]
+            if dc["type"] != "time" or not dc.get("initial_pull", True):
                 continue
-            src = b.comps[ln["src"][0]]
-            if not isinstance(src, fm.interfaces.ITimeComponent):
+            (si, sc) = byname[ln["src"][0]]
+            if sc["type"] != "time":
                 continue
             if any(a[0] in ("scale2", "sum") for a in ln["chain"]):
                 continue
@@ -473,14 +476,18 @@ class C06(Property):
                 continue
             val = float(np.asarray(d.magnitude).ravel()[0])
             out.count("initial_pulls_checked")
-            if val != src.value(ln["src"][1], 0):
-                out.viol("initial_value", f"{ln['dst'][0]}.in{ln['dst'][1]} received {val} at connect, producer's initial value is {src.value(ln['src'][1], 0)}", spec=spec)
+            # harness producers number their publications, shipped generators evaluate their callback at their own start time
+            want = float(si * 1_000_000 + ln["src"][1] * 10_000) + (sc["start"] if sc.get("impl") == "shipped" else 0)
+            if sc.get("impl") == "shipped" and sc["start"] != spec["start"]:
+                out.count("late_starting_shipped_generators")
+            if val != want:
+                out.viol("initial_value", f"{ln['dst'][0]}.in{ln['dst'][1]} received {val} at connect, producer's initial value is {want}", spec=spec)
         import hashlib
 
         out.key = "off:" + hashlib.md5(repr(spec).encode()).hexdigest()[:12]
 
     def coverage_gaps(self, counters, tier):
-        need = ["protocol_cases", "masked_late_starters", "offset_cases", "late_starters_with_output_time_taken_from_an_input", "converged", "stall_errors", "stall_errors_with_2plus_stuck", "stall_errors_with_connected_bystanders",
+        need = ["protocol_cases", "masked_late_starters", "late_starting_shipped_generators", "offset_cases", "late_starters_with_output_time_taken_from_an_input", "converged", "stall_errors", "stall_errors_with_2plus_stuck", "stall_errors_with_connected_bystanders",
                 "connect_calls_judged", "initial_pulls_checked", "double_initial_publications_expected", "iterations_3", "iterations_5"]
         return [f"{k} never observed" for k in need if not counters.get(k)]
 
